@@ -84,6 +84,13 @@ Theorem C10_pwl_plottable : forall f, wf_pwl f ->
 Proof. exact pwl_plottable_spec. Qed.
 Print Assumptions C10_pwl_plottable.
 
+From PS Require Lem_Leftovers.
+Import Lem_Leftovers.
+(* average of a piecewise-linear function over a list of intervals: summed integrals / summed lengths *)
+Theorem C10_pwl_average_list : forall (f : list R * list R * list R) (l : list (R * R)), wf_pwl f -> Forall (fun p : R * R => nthF ROps (fst (fst f)) 0 <= fst p /\ fst p < snd p <= lastF ROps (fst (fst f))) l -> pwl_avrg ROps f (IvMany l) = Ok (sumF ROps (map (fun p : R * R => pwl_overlap ROps (fst (fst f)) (snd (fst f)) (snd f) (fst p) (snd p)) l) / sumF ROps (map (fun p : R * R => snd p - fst p) l)).
+Proof. exact pwl_avrg_many. Qed.
+Print Assumptions C10_pwl_average_list.
+
 Theorem C10_pwc_plottable : forall f : list R * list R, wf_pwc f ->
   pwc_plottable f = (match fst f with [] => [] | x0 :: r => x0 :: removelast (dup r) end, dup (snd f)) /\
   length (fst (pwc_plottable f)) = (2 * length (snd f))%nat /\
